@@ -407,7 +407,7 @@ func (x *Exec) merge(in []mergeEdge, tag string) (*State, Term) {
 			keys[k] = true
 		}
 	}
-	for k := range keys {
+	for _, k := range sortedKeys(keys) {
 		var vals []Value
 		missing := false
 		for _, e := range in {
@@ -685,7 +685,7 @@ func (x *Exec) loopHeader(h *ssa.BasicBlock, ci *cfgInfo, pre *State, reach Term
 	// 2. havoc
 	post := pre.Clone()
 	cells := x.loopCells(h, ci)
-	for k := range cells {
+	for _, k := range sortedKeys(cells) {
 		// resolve FreeVar to the cell it is bound to
 		key := k
 		if fv, ok := k.(*ssa.FreeVar); ok {
@@ -1369,4 +1369,38 @@ func alwaysFreshSlice(al *ssa.Alloc) bool {
 		}
 	}
 	return true
+}
+
+// sortedKeys orders cell keys deterministically (the generated symbols and assertion order must
+// not depend on Go's map iteration order: solver behaviour would differ from run to run).
+func sortedKeys(m map[interface{}]bool) []interface{} {
+	type kv struct {
+		k interface{}
+		s string
+	}
+	var ks []kv
+	for k := range m {
+		var s string
+		switch t := k.(type) {
+		case *ssa.Alloc:
+			s = fmt.Sprintf("a:%s:%012d:%s:%s", t.Parent().String(), t.Pos(), t.Comment, t.Name())
+		case *ssa.Global:
+			s = "g:" + t.String()
+		case *ssa.FreeVar:
+			s = "f:" + t.Parent().String() + ":" + t.Name()
+		case *ssa.Range:
+			s = fmt.Sprintf("r:%s:%012d:%s", t.Parent().String(), t.Pos(), t.Name())
+		case string:
+			s = "s:" + t
+		default:
+			s = fmt.Sprintf("z:%v", k)
+		}
+		ks = append(ks, kv{k, s})
+	}
+	sort.Slice(ks, func(i, j int) bool { return ks[i].s < ks[j].s })
+	out := make([]interface{}, len(ks))
+	for i, e := range ks {
+		out[i] = e.k
+	}
+	return out
 }
